@@ -15,10 +15,7 @@ func (s *Session) InboundConnect(port byte, remote, local string) ConnKey {
 	k := ConnKey{port, local, remote}
 	s.mu.Lock()
 	c := &Conn{Key: k, Inbound: true, State: "connected", RequestedAt: s.sim.Now(), ConnectedAt: s.sim.Now()}
-	if _, seen := s.conns[k]; !seen {
-		s.order = append(s.order, k)
-	}
-	s.conns[k] = c
+	s.addConn(c)
 	cb := s.OnConnected
 	s.mu.Unlock()
 	fr := Frame{Port: port, Kind: 'C', From: remote, To: local, Data: s.text("*** CONNECTED To Station %s\r", remote)}
@@ -102,7 +99,7 @@ func (s *Session) CloseLink() {
 // Snapshot is a consistent copy of what the session recorded.
 type Snapshot struct {
 	Recv       []Recv
-	Conns      []Conn // in creation order (latest state per key)
+	Conns      []Conn // every incarnation in creation order (Conns[i].ID == i)
 	FramingErr string // mid-stream: absurd DataLen, stream cannot be followed
 	TruncErr   string // stream ended inside a header or a data field
 	HostEOF    bool
@@ -124,8 +121,8 @@ func (s *Session) Snapshot() Snapshot {
 	for k, v := range s.regTried {
 		sn.RegTried[k] = v
 	}
-	for _, k := range s.order {
-		c := *s.conns[k]
+	for _, pc := range s.all {
+		c := *pc
 		c.RecvPayloads = append([][]byte(nil), c.RecvPayloads...)
 		c.SentPayloads = append([][]byte(nil), c.SentPayloads...)
 		c.SentAt = append([]time.Duration(nil), c.SentAt...)
@@ -160,4 +157,73 @@ func (s *Session) SentBytes(k ConnKey) (bytes, frames int) {
 		bytes += len(p)
 	}
 	return bytes, len(c.SentPayloads)
+}
+
+// ConnID is the number of the latest incarnation of k (-1: never seen).
+func (s *Session) ConnID(k ConnKey) int {
+	s.mu.Lock()
+	defer s.mu.Unlock()
+	if c := s.conns[k]; c != nil {
+		return c.ID
+	}
+	return -1
+}
+
+// Current reports whether incarnation id is the latest one of its key and
+// still connected: only then do DataFrame, Disconnect and ConnState with its
+// key act on it.
+func (s *Session) Current(id int) bool {
+	s.mu.Lock()
+	defer s.mu.Unlock()
+	if id < 0 || id >= len(s.all) {
+		return false
+	}
+	c := s.all[id]
+	return s.conns[c.Key] == c && c.State == "connected"
+}
+
+// StateID is ConnState for one incarnation.
+func (s *Session) StateID(id int) (state string, outstanding int, ok bool) {
+	s.mu.Lock()
+	defer s.mu.Unlock()
+	if id < 0 || id >= len(s.all) {
+		return "", 0, false
+	}
+	return s.all[id].State, s.all[id].Outstanding, true
+}
+
+// SentLens returns the payload sizes of the data frames sent to the host on
+// incarnation id, in order.
+func (s *Session) SentLens(id int) []int {
+	s.mu.Lock()
+	defer s.mu.Unlock()
+	if id < 0 || id >= len(s.all) {
+		return nil
+	}
+	out := make([]int, len(s.all[id].SentPayloads))
+	for i, p := range s.all[id].SentPayloads {
+		out[i] = len(p)
+	}
+	return out
+}
+
+// HostInFlight is the number of bytes the application has written to the TCP
+// link that have not reached the TNC yet.
+func (s *Session) HostInFlight() int {
+	if s.Link == nil || s.Link.A == nil {
+		return 0
+	}
+	if t, ok := pipe.WithCaps(s.Link.A, []string{"txbuffer"}).(interface{ TxBufferLen() int }); ok {
+		return t.TxBufferLen()
+	}
+	return 0
+}
+
+// Busy reports whether anything is still on its way: bytes in flight in either
+// direction or a transmission the model has scheduled and not yet written.
+func (s *Session) Busy() bool {
+	s.mu.Lock()
+	pending := s.pending
+	s.mu.Unlock()
+	return pending > 0 || s.InFlight() > 0 || s.HostInFlight() > 0
 }
